@@ -2055,16 +2055,18 @@ class Memoer(Tymee):
                 # uxd file path is not available to send to.
                 logger.error("Error send from %s to %s\n %s\n",
                                                          self.name, dst, ex)
-                self.txbs = (bytearray(), None) # far peer unavailable, so drop.
+                gram = bytearray()  # far peer unavailable, so drop.
                 dst = None  # dropped is same as all sent
             else:
                 raise  # unexpected error
 
         if cnt:
             del gram[:cnt]  # remove from buffer those bytes sent
-            if not gram:  # all sent
-                dst = None  # done indicated by setting dst to None
-            self.txbs = (gram, dst)  # update .txbs to indicate if completely sent
+        if not gram:  # all sent
+            dst = None  # done indicated by setting dst to None
+        # always update .txbs so a gram that could not be sent at all (cnt == 0)
+        # is kept for retry instead of being lost
+        self.txbs = (gram, dst)  # update .txbs to indicate if completely sent
 
         return (False if dst else True)  # incomplete return False, else True
 
